@@ -259,6 +259,31 @@ def run(F, R, tier):
     R.ob("match-flag-writers", "in_match_pattern", list(writers.keys()) == [P + "parse_match_pattern"]
          and writers[P + "parse_match_pattern"] == ["true", "false"], str(writers))
 
+    # ... and as a *pair on every path*: once the flag is raised, no return of parse_match_pattern is reached without passing
+    # the assignment that lowers it again (an early `return Ok(..)` between the two leaves `|` with the pattern precedence for
+    # the rest of the program).  Must-pass-through on the MIR.
+    pm = F.fn(P + "parse_match_pattern")
+    if pm is not None and pm.get("mir"):
+        from .lib import mir as M_
+        Bp = M_.Body(pm)
+        ups, downs = [], []
+        for bi, b_ in enumerate(Bp.blocks):
+            if b_.get("cleanup"):
+                continue
+            for st in b_["stmts"]:
+                if st["k"] == "assign" and st["lhs"]["p"] and isinstance(st["lhs"]["p"][-1], dict) and st["lhs"]["p"][-1].get("n") == "in_match_pattern" \
+                        and st["rv"]["k"] == "use" and st["rv"]["a"]["k"] == "const":
+                    (ups if st["rv"]["a"].get("val") is True else downs).append(bi)
+        rets = [bi for bi, b_ in enumerate(Bp.blocks) if b_["term"]["k"] == "return" and not b_.get("cleanup")]
+        leaked = []
+        for u in ups:
+            if u in downs:
+                continue
+            reach = M_.reachable_avoiding(Bp, u, set(downs), through_start=True)
+            leaked += [r for r in rets if r in reach]
+        R.ob("match-flag-writers", "in_match_pattern is lowered again on every path to a return of parse_match_pattern", bool(ups) and bool(downs) and not leaked,
+             "raised in bb%s, lowered in bb%s; returns reachable with the flag still raised: %s" % (ups, downs, sorted(set(leaked))), F.loc(pm))
+
     # C5 the Pratt loop hands `precedence` unchanged to peek_valid_expression
     f = fn("parse_expression", "parser::Parser::")
     if f:
